@@ -19,6 +19,7 @@
      read_all                 -> a PREFIX of the content                  (read_all_prefix)
    Errors are always possible; after an error of a file read nothing is claimed for that
    BlocksToFileReader (the archive reader itself stays usable: ReaderAuthSim.get_*_sim). *)
+From MLA Require Import Limit.
 From MLA Require Import Base Stream Blocks Reader EncAuth EncAuthStream ReaderAuthSim
   RoundTripBlocks RoundTripFooter RoundTripReader.
 From Coq Require Import ZifyBool ZifyNat ZifyN.
@@ -77,6 +78,7 @@ Proof.
 Qed.
 
 Section ReaderAuth.
+  Context {LIM : Limit}.
   Variable FNMAX : N.
   Variables T_START T_CONTENT T_EOA T_EOF : N.
   Hypothesis Htags : tags_distinct T_START T_CONTENT T_EOA T_EOF.
